@@ -42,6 +42,9 @@ mod utils;
 mod vanishing;
 mod verifier_gadget;
 
+#[cfg(feature = "verif-hooks")]
+pub mod verif_hooks;
+
 pub use accumulator::{Accumulator, AssignedAccumulator};
 pub use msm::{AssignedMsm, Msm};
 #[cfg(feature = "dev-curves")]
